@@ -6,6 +6,7 @@ CONSTANTS
   Counts = {1, 2, 3, 4, 5, 7, 8, 11, 16, 17, 24, 31, 32}
   Bes = {0, 1}
   NChains = 0
+  Blind = 0
   NSurg = 0
 INIT Init
 NEXT Next
